@@ -7,6 +7,32 @@ use std::{
     sync::atomic::Ordering,
 };
 
+#[cfg(feature = "async")]
+use std::{
+    future::{pending, Future},
+    pin::pin,
+    sync::{atomic::AtomicBool, Arc},
+    task::{Context, Wake, Waker},
+};
+
+/// Records whether the local task set of a module announced runnable tasks.
+#[cfg(feature = "async")]
+#[derive(Default)]
+struct LocalActivity {
+    woken: AtomicBool,
+}
+
+#[cfg(feature = "async")]
+impl Wake for LocalActivity {
+    fn wake(self: Arc<Self>) {
+        self.woken.store(true, Ordering::SeqCst);
+    }
+
+    fn wake_by_ref(self: &Arc<Self>) {
+        self.woken.store(true, Ordering::SeqCst);
+    }
+}
+
 #[must_use]
 pub(super) struct Harness<'a> {
     ctx: &'a ModuleContext,
@@ -31,15 +57,29 @@ impl<'a> Harness<'a> {
         };
 
         self.unwind = catch_unwind(AssertUnwindSafe(|| {
-            task_set.block_on(&rt, async move {
-                f();
+            rt.block_on(async move {
+                // (0) Run the callback inside the local task set.
+                task_set.run_until(async move { f() }).await;
 
-                // Keep yielding until the scheduler of this module has no runnable
-                // task left, so that no work is deferred to a later simulated instant.
+                // (1) Drive both schedulers until neither has a runnable task left, so that
+                // no work is deferred to a later simulated instant. The local task set only
+                // reports pending work through its waker, so its turns are polled with a
+                // waker that records this.
+                let activity = Arc::new(LocalActivity::default());
+                let waker = Waker::from(activity.clone());
+                let mut local = pin!(task_set.run_until(pending::<()>()));
                 loop {
+                    activity.woken.store(false, Ordering::SeqCst);
+
+                    // one turn of the local task set (tasks created with spawn_local)
+                    let _ = local.as_mut().poll(&mut Context::from_waker(&waker));
+
+                    // one turn of the runtime, this also delivers deferred wake-ups
                     tokio::task::yield_now().await;
+
                     let metrics = tokio::runtime::Handle::current().metrics();
-                    if metrics.global_queue_depth() == 0
+                    if !activity.woken.load(Ordering::SeqCst)
+                        && metrics.global_queue_depth() == 0
                         && metrics.worker_local_queue_depth(0) == 0
                     {
                         break;
